@@ -261,10 +261,57 @@ def ddmin(ops, still_fails, deadline):
     return ops
 
 
+def _fails_in_fresh_process(cand, sig):
+    """Evaluate a candidate replay in a fresh interpreter (needed when the
+    violation is about state accumulated in the process: an in-process
+    evaluation would inherit the state of earlier candidates)."""
+    import tempfile
+    with tempfile.NamedTemporaryFile("w", suffix=".json", delete=False) as fd:
+        json.dump(cand, fd, default=_json_default)
+        path = fd.name
+    try:
+        ok, _ = replay_in_fresh_interpreter(path, sig)
+    except Exception:
+        ok = False
+    finally:
+        os.unlink(path)
+    return ok
+
+
 def minimise(engine, run, viol, budget_s=90):
     sig = signature(viol)
     deadline = time.monotonic() + budget_s
     tried = [0]
+    if viol.get("needs_history"):
+        # coarse minimisation in fresh interpreters: history first, then ops
+        best = dict(run)
+        hist = list(run.get("history") or [])
+
+        def fails(h, ops):
+            tried[0] += 1
+            return _fails_in_fresh_process(dict(run, history=h, ops=ops), sig)
+
+        if not fails(hist, run["ops"]):
+            return dict(run, minimised_from_ops=len(run["ops"]),
+                        minimise_executions=tried[0])
+        while len(hist) > 1 and time.monotonic() < deadline:
+            half = len(hist) // 2
+            if fails(hist[half:], run["ops"]):
+                hist = hist[half:]
+            elif fails(hist[:half], run["ops"]):
+                hist = hist[:half]
+            else:
+                break
+        ops = list(run["ops"])
+        while len(ops) > 1 and time.monotonic() < deadline:
+            if fails(hist, ops[:-1]):
+                ops = ops[:-1]
+            else:
+                break
+        best.update(history=hist, ops=ops,
+                    minimised_from_ops=len(run["ops"]),
+                    minimise_executions=tried[0])
+        return best
 
     def fails_with(ops):
         tried[0] += 1
@@ -292,7 +339,24 @@ def minimise(engine, run, viol, budget_s=90):
                         ops = cand
                         changed = True
                         break
+    hist = run.get("history")
+    if hist:
+        def fails_hist(h):
+            tried[0] += 1
+            cand = dict(run, ops=ops, history=h)
+            try:
+                res = engine.execute(cand)
+            except Exception:
+                return False
+            v = res.get("violation")
+            return v is not None and signature(v) == sig
+        if fails_hist([]):
+            hist = []
+        else:
+            hist = ddmin(hist, fails_hist, deadline)
     out = dict(run, ops=ops)
+    if run.get("history") is not None:
+        out["history"] = hist
     out["minimised_from_ops"] = len(run["ops"])
     out["minimise_executions"] = tried[0]
     return out
@@ -302,6 +366,7 @@ def minimise(engine, run, viol, budget_s=90):
 # worker side
 # --------------------------------------------------------------------------
 _ENGINE = None
+_HISTORY = []     # runs executed earlier by this worker process
 
 
 def _worker_init(engine_name):
@@ -322,6 +387,15 @@ def _run_one(engine, prop, base_seed, tier, index):
         res = engine.execute(run)
     finally:
         faulthandler.cancel_dump_traceback_later()
+    v = res.get("violation")
+    if v is not None and v.get("needs_history"):
+        # the violation is about state that earlier runs left in this
+        # process: the replay file carries them
+        run["history"] = [dict(h) for h in _HISTORY]
+    if getattr(engine, "track_history", False):
+        _HISTORY.append({k: run[k] for k in ("config", "ops", "property",
+                                             "index")})
+        del _HISTORY[:-40]
     res["run"] = run if res.get("violation") or res.get("keep_run") else None
     if os.environ.get("VERIF_DUMP_LOGS"):
         d = pathlib.Path(os.environ["VERIF_DUMP_LOGS"])
@@ -443,6 +517,55 @@ def replay_in_fresh_interpreter(path, expect_sig, hashseed="0"):
     return (p.returncode == 1 and want in p.stdout), p
 
 
+def cross_process(engine, run, res, rule, what="event log"):
+    """Re-execute `run` in a fresh interpreter under another PYTHONHASHSEED
+    and compare. Returns a violation or None. Used for the clauses
+    "identical across processes / hash seeds" and, because a fresh
+    interpreter has no history, for state that leaks between objects of one
+    process (module-level caches)."""
+    import tempfile
+    child = dict(run, _child=True)
+    child.pop("history", None)
+    with tempfile.NamedTemporaryFile("w", suffix=".json",
+                                     delete=False) as fd:
+        json.dump(child, fd, default=_json_default)
+        path = fd.name
+    try:
+        env = dict(os.environ, PYTHONHASHSEED="4242")
+        p = subprocess.run(
+            [sys.executable, "-B", "-m", "sim.main", "--exec-run", path],
+            cwd=str(VERIF), env=env, capture_output=True, text=True,
+            timeout=900)
+    finally:
+        os.unlink(path)
+    line = [ln for ln in p.stdout.splitlines() if ln.startswith("RETS ")]
+    if p.returncode != 0 or not line:
+        raise HarnessError(
+            f"cross-process child failed rc={p.returncode}: "
+            f"{p.stdout[-800:]} {p.stderr[-800:]}")
+    theirs = json.loads(line[0][5:])
+    mine_rets = res.get("rets")
+    if mine_rets is not None and theirs.get("rets") != mine_rets:
+        k = next((i for i, (a, b) in enumerate(
+            zip(theirs["rets"], mine_rets)) if a != b), -1)
+        return make_violation(
+            engine.prop, rule, "other-process", {"first_diff": k},
+            f"returned values differ in a fresh interpreter with another "
+            f"hash seed: {mine_rets} vs {theirs['rets']}")
+    if theirs["log_digest"] != res["log_digest"]:
+        if mine_rets is not None:
+            raise HarnessError("cross-process log digest differs although "
+                               "returned values agree")
+        v = make_violation(
+            engine.prop, rule, "other-process", {},
+            f"the {what} of this run differs when it is executed in a fresh "
+            f"interpreter (no earlier objects, another hash seed): results "
+            f"depend on process history or environment")
+        v["needs_history"] = True
+        return v
+    return None
+
+
 def write_evidence(prop, tier, seed, level, coverage, wall, violations,
                    assumptions):
     EVIDENCE.mkdir(exist_ok=True)
@@ -525,12 +648,15 @@ def check(engine_name, prop, tier, base_seed, n_runs, budget_s, workers,
         except Exception as e:
             print(f"HARNESS-ERROR property={prop} minimisation failed: {e!r}")
             return 2
-        res = engine.execute(small)
-        v2 = res.get("violation")
-        if v2 is None or signature(v2) != sig:
-            # minimised run does not reproduce in-process: fall back to the
-            # original run
-            small, v2 = run, viol
+        if viol.get("needs_history"):
+            v2 = viol
+        else:
+            res = engine.execute(small)
+            v2 = res.get("violation")
+            if v2 is None or signature(v2) != sig:
+                # minimised run does not reproduce in-process: fall back to
+                # the original run
+                small, v2 = run, viol
         small = dict(small)
         small["violation"] = v2
         name = f"{prop}-{base_seed}-{run['index']}-{sig[1]}.json"
